@@ -10,7 +10,7 @@ ID = "C13"
 COQ_REQUIRE = "C13.Run"
 SHARD = 40
 RULE = ("statm records of seven page counts (0 .. 2^52) x page size {real, 4096, 16384, 65536}; smaps listings of 0..25 mappings "
-        "drawn from a grammar (hex ranges, perms, 30 path shapes incl. blanks/colons/' (deleted)'/UTF-8/figure-like names, repeated "
+        "drawn from a grammar (hex ranges, perms, 35 path shapes incl. blanks inside and at the end/colons/' (deleted)'/UTF-8/Unicode blanks/figure-like names, repeated "
         "paths, anonymous, deleted files with the literal name present or absent), each with the ten figure lines in kernel order "
         "plus a per-case kernel profile of optional lines (KernelPageSize, Pss_Dirty, KSM, LazyFree, *Hugetlb, SwapPss, Locked, "
         "THPeligible, ProtectionKey, VmFlags), values up to 2^45 kB; the roll-up computed from the same list (or deliberately "
@@ -44,6 +44,7 @@ ORDER = [("Size", "fig", None), ("KernelPageSize", "kb", "kps"), ("MMUPageSize",
          ("Shared_Hugetlb", "kb", "huge"), ("Private_Hugetlb", "fig", "huge"), ("Swap", "fig", None), ("SwapPss", "kb", "swappss"),
          ("Locked", "kb", "locked"), ("THPeligible", "num", "thpe"), ("ProtectionKey", "num", "pkey"), ("VmFlags", "flags", "vmflags")]
 PROFILE_KEYS = ["kps", "pssd", "ksm", "lazy", "thp", "huge", "swappss", "locked", "thpe", "pkey", "vmflags"]
+DECOY = [0, 4, 12, 64, 100, 2048, 77777, 2 ** 33 + 8]   # values of the lines psutil must ignore
 VALS = [0, 0, 4, 8, 12, 132, 2048, 2 ** 20, 2 ** 31, 2 ** 32 + 4, 2 ** 45, 10 ** 13 + 7]
 PATHS = [b"/usr/lib/x86_64-linux-gnu/libc.so.6", b"/usr/bin/python3.12", b"[heap]", b"[stack]", b"[vdso]", b"[anon:my name]",
          b"/tmp/a b/c d.so", b"/tmp/x:y:z", b"/dev/shm/foo", b"/memfd:jit", b"/tmp/Private_Dirty: 5 kB", b"/tmp/Pss: 7",
@@ -78,7 +79,7 @@ def _lines(rng, profile, figs, per_mapping_jitter):
             pad = max(0, 16 - len(name) - 1 + max(0, 8 - len(str(v))) - 1) if rng.random() < 0.8 else rng.choice([0, 1, 3])
             out.append(["F", name, pad, str(v)])
         elif kind == "kb":
-            v = rng.choice([0, 4, 64, 2048])
+            v = rng.choice(DECOY)
             out.append(["O", name, max(0, 16 - len(name) - 1 + 8 - len(str(v)) - 1), str(v), True])
         elif kind == "num":
             v = rng.choice([0, 1])
@@ -122,7 +123,8 @@ def _ex_for(rng, ms, ambiguous):
 
 
 def _mappings(rng, n, edge=False):
-    profile = {k: rng.random() < 0.6 for k in PROFILE_KEYS}
+    full_profile = rng.random() < 0.4     # a current kernel: every line present
+    profile = {k: full_profile or rng.random() < 0.7 for k in PROFILE_KEYS}
     pool = rng.sample(PATHS, rng.randint(1, 6))
     if edge:
         pool = pool[:2] + rng.sample(EDGE_PATHS, rng.randint(1, 3))
@@ -147,23 +149,24 @@ def _rollup(rng, ms, consistent=True):
     if not consistent:
         tot[rng.choice(["Pss", "Swap", "Private_Clean"])] += rng.choice([1, 7, 200])
     lines = []
-    modern = rng.random() < 0.7
+    modern = rng.random() < 0.8
+    dec = lambda name, pad: ["O", name, pad, str(rng.choice(DECOY)), True]
     for name in ["Rss", "Pss"]:
         lines.append(["F", name, max(0, 22 - len(name) - len(str(tot[name]))), str(tot[name])])
     if modern:
         for name in ["Pss_Dirty", "Pss_Anon", "Pss_File", "Pss_Shmem"]:
-            lines.append(["O", name, 8, str(rng.choice([0, 100, 94])), True])
+            lines.append(dec(name, 8))
     for name in ["Shared_Clean", "Shared_Dirty", "Private_Clean", "Private_Dirty", "Referenced", "Anonymous"]:
         lines.append(["F", name, max(0, 22 - len(name) - len(str(tot[name]))), str(tot[name])])
     if modern:
         for name in ["KSM", "LazyFree", "AnonHugePages", "ShmemPmdMapped", "FilePmdMapped", "Shared_Hugetlb"]:
-            lines.append(["O", name, 5, "0", True])
+            lines.append(dec(name, 5))
     if modern or tot["Private_Hugetlb"]:
         lines.append(["F", "Private_Hugetlb", 2, str(tot["Private_Hugetlb"])])
     lines.append(["F", "Swap", 10, str(tot["Swap"])])
-    if modern:
-        lines.append(["O", "SwapPss", 8, "0", True])
-        lines.append(["O", "Locked", 8, "0", True])
+    if modern or rng.random() < 0.5:
+        lines.append(dec("SwapPss", 8))
+        lines.append(dec("Locked", 8))
     lo = ms[0]["addr"].split("-")[0] if ms else "00400000"
     hi = ms[-1]["addr"].split("-")[1] if ms else "7ffffffff000"
     hdr = ("%s-%s ---p 00000000 00:00 0" % (lo, hi)).encode() + b" " * 26 + b"[rollup]"
@@ -184,8 +187,13 @@ RMODES = ["ok", "ok", "ok", "enoent", "esrch_open", "esrch_read"]
 RMODE_NUM = {"ok": 0, "enoent": 1, "esrch_open": 2, "esrch_read": 2, "eacces": 3}
 
 
+HEAVY = [False]   # large listings (12 / 25 mappings) only outside the quick tier
+
+
 def _nmaps(rng):
-    return rng.choice([0, 1, 1, 1, 2, 2, 3, 3, 4, 6]) if rng.random() < 0.97 else rng.choice([12, 25])
+    if HEAVY[0] and rng.random() < 0.04:
+        return rng.choice([12, 25])
+    return rng.choice([0, 1, 1, 1, 2, 2, 3, 3, 4, 6] if HEAVY[0] else [0, 1, 1, 1, 2, 2, 2, 3, 4])
 
 
 def _full_case(rng, kind="full"):
@@ -253,7 +261,8 @@ def _mutate(rng, ms):
 
 
 def gen_cases(rng, tier):
-    n = {"quick": 50, "thorough": 600, "search": 120}[tier]
+    n = {"quick": 26, "thorough": 600, "search": 100}[tier]
+    HEAVY[0] = tier == "thorough"
     cases = []
     # ---- statm
     for _ in range(n):
@@ -282,7 +291,7 @@ def gen_cases(rng, tier):
         ms = _mappings(rng, rng.choice([1, 2, 3]), edge=rng.random() < 0.2)
         data = _mutate(rng, ms)
         cases.append({"kind": "maps_raw", "cls": "maps-raw", "ps": 0, "ex": _ex_for(rng, ms, True), "mode": "ok", "content": data.hex()})
-        if rng.random() < 0.6:
+        if rng.random() < (0.6 if tier == "thorough" else 0.35):
             cases.append({"kind": "full_raw", "cls": "full-raw", "ps": 0, "pagesize": _page(), "has_rollup": rng.random() < 0.5,
                           "rmode": rng.choice(RMODES), "rollup": _mutate(rng, []).hex() if rng.random() < 0.5 else
                           (b"00400000-7fff00000000 ---p 00000000 00:00 0 [rollup]\n" + _mutate(rng, ms)).hex(),
@@ -297,7 +306,7 @@ def gen_cases(rng, tier):
     for ps in (0, 1, 2):
         cases.append({"kind": "maps_raw", "cls": "maps-empty", "ps": ps, "ex": [], "mode": "ok", "content": rng.choice([b"", b"\n", b"  \n"]).hex()})
     # ---- memory_percent
-    for _ in range(max(3, n // 12)):
+    for _ in range(max(2, n // 12)):
         base = _full_case(rng, "percent")
         base["rmode"] = rng.choice(["ok", "ok", "enoent"])
         names = PFULL + ["", "RSS", "rss ", "private", "size", "pss_dirty", "swap\x00", "vms\n", "uss_", "total", "percent", "café"]
@@ -419,8 +428,7 @@ def coq_struct(case, raw):
 
 # ------------------------------------------------------------------ judging
 def finding_key(case, coq):
-    if case["kind"] == "maps" and _edge_class(case):
-        return "memory_maps-path-edge-blank"
+    # memory_maps-path-edge-blank was repaired by /repo commit c15178c; no open finding class
     return None
 
 
@@ -654,8 +662,8 @@ MANIFEST = {
             "proportional/swapped kB over all mappings x 1024, and a roll-up file consistent with the listing gives the same record, as does the "
             "ENOENT/ESRCH fallback; memory_maps(grouped=False) is one row per mapping with its own address, permissions, path ('[anon]' if none, "
             "' (deleted)' marker removed) and ten figures; the grouped view has one row per distinct path, each field the sum over that path's "
-            "mappings; memory_percent is 100*field/total for exactly the ten field names and ValueError otherwise. Paths whose shown name has a "
-            "blank (str.isspace) at either end are excluded and refuted by a witness (finding). The model is tied to the code by running both on "
+            "mappings; memory_percent is 100*field/total for exactly the ten field names and ValueError otherwise. The path decoding used before commit "
+            "c15178c (str.strip of the name) is kept as clean_path_legacy and refuted by a witness. The model is tied to the code by running both on "
             "generated kernel files and on a malformed stream through the public API over a fake /proc.",
     "note": "Trusted: Coq kernel + vm_compute; hand-written model coq/C13/Model.v incl. the three regex scanners (tied by the correspondence run only); "
             "kernel formats in coq/C13/Spec.v; harness (fake /proc, builtins.open/os.stat patches, module constants set per case); CPython builtins "
